@@ -765,6 +765,21 @@ CutLongFraction(t) ==
   IF j = 0 \/ j = Len(t) THEN <<>>
   ELSE LET k == DigitRunEnd(t, j + 1) IN
        IF k - j < 10 THEN <<>> ELSE Sub(t, 1, j + 9) \o Sub(t, k + 1, Len(t))
+\* the two end-points a well-formed interval string denotes, when every date-time in it carries its own offset
+\* (so that no option and no DST rule matters); [ok |-> FALSE] otherwise
+IvValue(t) ==
+  LET j == FirstIn(t, {cSlash}, 1)
+      a == Sub(t, 1, j - 1)  b == Sub(t, j + 1, Len(t))
+      AsFixed(v) == DT(FixedRef(v.off), <<v.d[1], v.d[2], v.d[3], v.t[1], v.t[2], v.t[3], v.t[4]>>, 0)
+      CofD(d) == CompOfRest(BNToInt(d.y), BNToInt(d.mo), d.rest)
+  IN IF a[1] = cP
+     THEN LET d == RecDuration(a)  v == Recognise(b) IN
+          IF ~v.hasoff \/ d.tie THEN [ok |-> FALSE] ELSE [ok |-> TRUE, st |-> Add(AsFixed(v), NegC(CofD(d))), en |-> AsFixed(v)]
+     ELSE IF b[1] = cP
+     THEN LET d == RecDuration(b)  v == Recognise(a) IN
+          IF ~v.hasoff \/ d.tie THEN [ok |-> FALSE] ELSE [ok |-> TRUE, st |-> AsFixed(v), en |-> Add(AsFixed(v), CofD(d))]
+     ELSE LET v == Recognise(a)  w == Recognise(b) IN
+          IF ~v.hasoff \/ ~w.hasoff THEN [ok |-> FALSE] ELSE [ok |-> TRUE, st |-> AsFixed(v), en |-> AsFixed(w)]
 J_parse_any(e) ==
   LET t == e.a.text  p == e.post  o == e.a.opts
       ascii == \A i \in 1..Len(t) : t[i] < 128
@@ -794,6 +809,13 @@ J_parse_any(e) ==
            THEN LET v == IF r.kind = "date" /\ ~o.exact THEN [r EXCEPT !.kind = "datetime"] ELSE r IN CmpParsed(p.top, v, PendCls, "recognised")
            ELSE <<>>)
        \o (IF okd THEN CmpParsedDur(p.top, rd, "recognised-duration") ELSE <<>>)
+       \* a well-formed interval whose date-times carry their offsets denotes two definite instants (C13), whatever the back-end
+       \o (IF ivok /\ p.top.k = "iv" /\ IvEndpointInRange(t)
+           THEN LET iv == IvValue(t) IN
+                IF ~iv.ok THEN <<>>
+                ELSE V("interval-start", p.top.a.k = "dt" /\ p.top.a.w = iv.st.w /\ p.top.a.off = OffOf(iv.st), iv.st.w)
+                     \o V("interval-end", p.top.b.k = "dt" /\ p.top.b.w = iv.en.w /\ p.top.b.off = OffOf(iv.en), iv.en.w)
+           ELSE <<>>)
        \* "never a value computed from silently wrapped-around numbers": whoever accepts a fraction of ten or more digits
        \* returns the value of the text with the fraction cut to nine digits
        \o (LET cut == IF ascii /\ Len(t) <= 60 THEN CutLongFraction(t) ELSE <<>>
